@@ -122,7 +122,7 @@ def write_replay(pid, kind, payload):
 
 # which translated parts of the source a property's model and theorems depend on (tags of
 # harness/translate.py: untranslatable items of other parts do not concern the property)
-ALL_TAGS = {'codec', 'frag', 'bufs', 'enc', 'streamfilter', 'armor', 'cs', 'tag', 'track', 'talker'}
+ALL_TAGS = {'codec', 'frag', 'bufs', 'enc', 'streamfilter', 'armor', 'cs', 'tag', 'track', 'talker', 'filter'}
 DEPENDS = {
     'C01': {'codec', 'armor', 'frag'}, 'C02': {'codec', 'armor', 'frag', 'enc'},
     'C03': {'frag', 'bufs', 'armor'}, 'C04': {'codec', 'armor', 'frag', 'talker'},
@@ -134,7 +134,7 @@ DEPENDS = {
     'C12': {'codec', 'armor', 'frag', 'track'}, 'C13': {'codec', 'armor', 'frag', 'track'},
     'C14': {'codec', 'armor', 'frag', 'track'}, 'C15': {'codec', 'armor', 'frag', 'track'},
     'C16': {'tag', 'frag', 'armor'}, 'C17': {'tag', 'frag', 'bufs', 'armor', 'streamfilter'},
-    'C18': {'frag', 'bufs', 'armor', 'streamfilter'}, 'C19': {'codec', 'armor', 'frag'},
+    'C18': {'frag', 'bufs', 'armor', 'streamfilter'}, 'C19': {'codec', 'armor', 'frag', 'filter'},
     'C20': {'cs', 'codec', 'armor'},
 }
 
